@@ -234,7 +234,7 @@ class TracingStorage:
         self.trace: List[Tuple[str, str, int]] = []     # (op code, path, fault code)
         self.unknown: List[str] = []
         self._seen: Dict[Tuple[str, str], int] = {}
-        self.mark: Optional[int] = None                  # index in trace where refresh() returned
+        self.mark: Optional[Tuple[int, int]] = None     # trace indices spanned by the first metadata refresh()
 
     def __getattr__(self, name: str) -> Any:
         attr = getattr(self._inner, name)
@@ -312,11 +312,12 @@ def run_collect(table: Any, grace_ms: int, now_s: float, plan: Optional[List[Dic
         return real_prefix(self, prefix, reachable_set, grace_period_ms)
 
     def spy_refresh() -> Any:
+        start = len(st.trace)
         try:
             return real_refresh()
         finally:
             if st.mark is None:
-                st.mark = len(st.trace)
+                st.mark = (start, len(st.trace))
 
     out: Dict[str, Any] = {"raised": False, "exc_type": None, "exc": None, "phase": 0}
     try:
@@ -342,9 +343,10 @@ def run_collect(table: Any, grace_ms: int, now_s: float, plan: Optional[List[Dic
             del table.metadata_manager.refresh
         except AttributeError:
             table.metadata_manager.refresh = saved[5]
-    mark = st.mark if st.mark is not None else len(st.trace)
-    out["pre_trace"] = st.trace[:mark]
-    out["trace"] = st.trace[mark:]
+    # projection: the calls made inside metadata_manager.refresh() are not part of the collector model
+    a, b = st.mark if st.mark is not None else (len(st.trace), len(st.trace))
+    out["pre_trace"] = st.trace[a:b]
+    out["trace"] = st.trace[:a] + st.trace[b:]
     out["keep_sets"] = keep_sets
     out["unknown"] = [t for t in st.trace if t[0].startswith("?") and t[0] != "?read_json"]
     return out
